@@ -160,6 +160,10 @@ class Lock:
 
     def release(self):
         self.owner = None
+        # a scheduling point: what a thread does right after leaving a critical section is not part of it
+        s = CUR[0]
+        if s is not None and s.me() is not None and not s.me().kill:
+            s.point("lock.release", id(self))
 
     def __enter__(self):
         self.acquire()
